@@ -115,19 +115,32 @@ class TypeCheck:
         text = "".join(":%s:%s\r\n" % (t, c) for t, c in fields) + "-"
         return toks, fields, text
 
-    def variants(self, fields, limit=24):
+    PRIORITY = ["BANKDEFF", "BANKDEFFXXX", "ABCDEFGH", "/12345678\nBANKDEFFXXX", "/12345678\nBANKDEFF", "/12345678", "12345678",
+                "JOHN DOE\n1 MAIN ST", "1/JOHN DOE\n2/1 MAIN ST\n3/US/NEW YORK", "250115USD1000,00", "USD1000,00", "NAME LINE"]
+
+    def variants(self, fields, limit=90):
         """alternative concretisations: one token at a time gets another canonical valid content of a type that
-        serialises under the same tag (contents valid for several options, BIC-shaped names, ...)"""
-        out = []
+        serialises under the same tag (contents valid for several options, BIC-shaped names, ...); option-lettered
+        tags first, distinctive shapes first"""
+        per_tok = []
         for i, (t, c) in enumerate(fields):
             seen = {c}
+            alts = []
             for ty in self.tag2types.get(t, []):
                 for alt in self.alts.get(ty, []):
                     if alt not in seen:
                         seen.add(alt)
-                        f2 = list(fields)
-                        f2[i] = (t, alt)
-                        out.append(f2)
+                        alts.append(alt)
+            alts.sort(key=lambda a: (self.PRIORITY.index(a) if a in self.PRIORITY else len(self.PRIORITY)))
+            per_tok.append((0 if len(t) == 3 else 1, i, alts[:8]))
+        per_tok.sort()
+        out = []
+        for rnd in range(8):
+            for _, i, alts in per_tok:
+                if rnd < len(alts):
+                    f2 = list(fields)
+                    f2[i] = (fields[i][0], alts[rnd])
+                    out.append(f2)
         return out[:limit]
 
     # -- evaluation of a concrete replay outcome against the property -----------------------------
